@@ -26,6 +26,7 @@ MODES = "ZAUDEH"
 DIRECTED = "ZAUD"
 PRECS_QUICK = [1, 2, 3, 10, 53, 100]
 PRECS_THOROUGH = [1, 2, 3, 10, 53, 100, 1000, 3000]
+BIG_EXP = False   # set by raw_cases for the thorough tier
 
 # ----------------------------------------------------------------------------- number helpers
 
@@ -116,10 +117,14 @@ def d_exp(q, digits):
 # ----------------------------------------------------------------------------- raw case generators
 
 def cfg(rng, tier, pmax=None):
-    precs = PRECS_QUICK if tier == "quick" else PRECS_THOROUGH
-    if pmax:
-        precs = [p for p in precs if p <= pmax]
-    return rng.choice(BASES), rng.choice(precs), rng.choice(MODES)
+    p = rng.choice(PRECS_QUICK)
+    if tier != "quick":
+        r = rng.random()          # the large precisions are expensive on the implementation side: fewer of them
+        if r < 0.06:
+            p = 1000
+        elif r < 0.075 and not (pmax and pmax < 3000):
+            p = 3000
+    return rng.choice(BASES), p, rng.choice(MODES)
 
 def float_with_top(rng, B, p, top, d=None):
     """random float with d (<= p) significant digits and magnitude B^(top-1) <= |x| < B^top"""
@@ -149,7 +154,7 @@ def exp_inputs(rng, B, p, op):
         else:
             s, e = round_frac(Fraction(1, n), B, p)
     elif r < 0.72 and op == "exp":   # large arguments, up to the exponent limit of the result
-        mag = rng.choice([1e2, 1e3, 1e4, 1e6, 1e9, 1e12, 1e15, 1e18])
+        mag = rng.choice([1e2, 1e3, 1e4, 1e6, 1e9, 1e12, 1e15, 1e17])
         top = int(math.log(mag) / math.log(B)) + 1
         s, e = float_with_top(rng, B, p, top)
     elif r < 0.80:     # moderately large (both ops)
@@ -180,7 +185,7 @@ def ln_inputs(rng, B, p, op):
             if c < 0.7:
                 return 1, rng.choice([1, 2, 5, -1, -2, -5, 100, -100, 1000, -1000])
             return round_frac(Fraction(1, rng.randrange(2, 60)), B, p)
-        return float_with_top(rng, B, p, rng.choice([-5000, -1000, -300, -100, -30, -10, 10, 30, 100, 300, 1000, 5000]))
+        return float_with_top(rng, B, p, rng.choice([-1000, -300, -100, -30, -10, 10, 30, 100, 300, 1000] + ([-5000, 5000] if BIG_EXP else [])))
     # ln_1p
     sgn = rng.choice([1, -1])
     if r < 0.30:        # tiny
@@ -209,6 +214,8 @@ def unary_cases(rng, tier, n):
         s, e = (exp_inputs if op in ("exp", "exp_m1") else ln_inputs)(rng, B, p, op)
         if p >= 1000 and abs(e) > 3000:
             e = -3000 if e < 0 else 3000
+        if (op == "ln" and s <= 0) or (op == "ln_1p" and Fraction(s) * Fraction(B) ** e <= -1):
+            continue      # outside the mathematical domain: see corpus/C11/*.probe
         if rng.random() < 0.15:
             # Context method on an operand longer than the context precision
             d = ndigits(B, s)
@@ -249,6 +256,27 @@ def powi_cases(rng, tier, n):
         else:
             yield ("f.powi", [fenc(B, s, e, p, m), hx(k)])
 
+def powi_big_cases(rng, tier, n):
+    """multi-word exponents where the result stays representable: base 1 +- B^-j with |k| * B^-j moderate"""
+    for _ in range(n):
+        B = rng.choice(BASES)
+        p = rng.choice([53, 100] if tier == "quick" else [53, 100, 100, 1000])
+        m = rng.choice(MODES)
+        jmin = int(64 / math.log2(B)) + 1
+        if jmin + 2 > p:
+            continue
+        j = rng.randrange(jmin, min(p - 1, jmin + 12) + 1)
+        k = (1 << rng.choice([64, 64, 65, 70])) + rng.getrandbits(rng.choice([1, 20, 63]))
+        # keep |k| * B^-j below ~2^8
+        while k.bit_length() - j * math.log2(B) > 8:
+            j += 1
+        if j + 1 > p:
+            continue
+        s, e = (B ** j + 1, -j) if rng.random() < 0.5 else (B ** j - 1, -j)
+        if rng.random() < 0.5:
+            k = -k
+        yield ("f.powi", [fenc(B, s, e, p, m), hx(k)])
+
 def powf_cases(rng, tier, n):
     for _ in range(n):
         B, p, m = cfg(rng, tier, 1000)
@@ -274,7 +302,7 @@ def powf_cases(rng, tier, n):
                     t, f = round_frac(Fraction(t), B, p)
         elif r < 0.9:    # huge / tiny results
             s, e = float_with_top(rng, B, p, rng.choice([-50, -5, 5, 50]))
-            t, f = float_with_top(rng, B, p, rng.choice([3, 6, 12]))
+            t, f = float_with_top(rng, B, p, rng.choice([3, 6, 12]) if B < 16 else rng.choice([2, 4, 7]))
         else:            # zero base, unit base
             s, e = rng.choice([(0, 0), (1, 0)])
             t, f = float_with_top(rng, B, p, rng.choice([-1, 0, 1]))
@@ -295,7 +323,9 @@ def guard_cases(rng, tier):
             x = fenc(B, *float_with_top(rng, B, p, 0), p, m)
             x0 = fenc(B, *float_with_top(rng, B, 5, 0, 5), 0, m)     # unlimited precision operand
             for op in ("exp", "exp_m1", "ln", "ln_1p"):
-                yield ("f." + op, [zero]); yield ("f." + op, [one])
+                if op != "ln":
+                    yield ("f." + op, [zero])      # ln 0 is outside the domain: corpus/C11/*.probe
+                yield ("f." + op, [one])
                 yield ("f." + op, [x0])
                 yield ("c." + op, [x, dec(0)])
                 yield ("f." + op, [fenc(B, "inf", 0, p, m)]); yield ("f." + op, [fenc(B, "-inf", 0, p, m)])
@@ -365,7 +395,7 @@ def adversarial_cases(rng, tier, n):
                 x = d_exp(t, dd + int(abs(t) / 2.3) + 5)
                 if kind == "ln_1p":
                     x = x - 1
-                    if x == 0:
+                    if x == 0 or round_frac(x, B, p)[0] * Fraction(B) ** round_frac(x, B, p)[1] <= -1:
                         continue
                 if kind == "cln":
                     s, e = round_frac(x, B, 2 * p)
@@ -377,20 +407,27 @@ def adversarial_cases(rng, tier, n):
             continue
 
 def raw_cases(rng, tier):
+    global BIG_EXP
     q = tier == "quick"
+    BIG_EXP = not q
     yield from guard_cases(rng, tier)
-    yield from unary_cases(rng, tier, 1300 if q else 20000)
-    yield from powi_cases(rng, tier, 350 if q else 5000)
-    yield from powf_cases(rng, tier, 350 if q else 5000)
-    yield from adversarial_cases(rng, tier, 250 if q else 4000)
+    sc = float(os.environ.get("C11_SCALE", "1"))
+    yield from unary_cases(rng, tier, 1300 if q else int(16000 * sc))
+    yield from powi_cases(rng, tier, 350 if q else int(4000 * sc))
+    yield from powi_big_cases(rng, tier, 60 if q else int(600 * sc))
+    yield from powf_cases(rng, tier, 350 if q else int(4000 * sc))
+    yield from adversarial_cases(rng, tier, 250 if q else int(4000 * sc))
 
 # ----------------------------------------------------------------------------- pass 1: observe the implementation
 
 def _bindir():
-    rc, out, bindir, _ = core.cargo_build(bins=["exec_" + GROUP])
-    if rc != 0:
-        raise RuntimeError("harness does not build")
-    return bindir
+    """where ./check's step 4 has just put exec_trans (same rule as core.cargo_build, without invoking cargo
+    again: other groups may hold cargo's build-directory lock)"""
+    import hashlib
+    tdir = os.path.join(core.CACHE, "harness-target")
+    if core.REPO != "/repo":
+        tdir += "-alt-" + hashlib.sha1(core.REPO.encode()).hexdigest()[:10]
+    return os.path.join(tdir, "debug")
 
 def observe(raw, jobs=JOBS, per_case_timeout=60):
     """run the harness alone over raw (op, args) cases; returns the payload printed for each"""
@@ -482,9 +519,169 @@ def nontrivial(c):
     cl = c.args[k + 1:]
     return len(cl) == 5 and cl[0] == "ok" and cl[3] != "0"
 
+# ----------------------------------------------------------------------------- classes of known findings
+# (predicates referenced from known_findings.jsonl; each describes one defect class by its inputs and by
+#  the verdict the model printed)
+
+def _farg(a):
+    t = a.split(":")
+    sg = t[2]
+    if "inf" in sg:
+        return int(t[1]), None, int(t[3]), int(t[4]), t[5]
+    v = -int(sg[1:], 16) if sg.startswith("-") else int(sg, 16)
+    return int(t[1]), v, int(t[3]), int(t[4]), t[5]
+
+def _ctx(op, args):
+    """(B, context precision, mode, operands) of a case"""
+    pre = args[:args.index("|")] if "|" in args else args
+    fl = [_farg(a) for a in pre if a.startswith("f:")]
+    B, _, _, p0, mode = fl[0]
+    if op.split(".")[-2] == "c":
+        p = int(pre[-1][2:])
+    else:
+        p = max(f[3] for f in fl)
+    return B, p, mode, fl
+
+def _top(B, f):
+    """|x| < B^top"""
+    return ndigits(B, f[1]) + f[2] if f[1] else -10 ** 9
+
+def k_large_argument(op, args):
+    """exp / exp_m1 of an argument whose reduction count s = floor(x / ln B) has about as many digits as
+    the guard digits of exp_internal (series_guard_digits + pow_guard_digits), or more; powf whose
+    y·ln x has about as many digits as powf's guard (10 + log2 p), or more: the argument reduction then
+    loses the digits of s and the result is off by more than an ulp, up to a wrong exponent."""
+    B, p, mode, fl = _ctx(op, args)
+    name = op.split(".")[-1]
+    lb = math.log2(B)
+    if p == 0:
+        return False
+    if name in ("exp", "exp_m1"):
+        guard = int(math.log2(p) / lb) + 2 + int(p.bit_length() * lb * 2)
+        return _top(B, fl[0]) >= guard - 2
+    if name == "powf" and fl[0][1] and fl[0][1] > 0 and fl[1][1]:
+        x = fl[0]; y = fl[1]
+        lnx = abs((math.log2(abs(x[1])) + x[2] * lb) * 0.6931)
+        if lnx < 1e-9:      # base next to 1: ln x ≈ x - 1
+            d = abs(Fraction(x[1]) * Fraction(B) ** x[2] - 1)
+            lnx = float(d) if d > 0 else 0.0
+        if lnx == 0.0:
+            return False
+        digits_arg = (math.log2(abs(y[1])) + y[2] * lb + math.log2(lnx)) / lb
+        return digits_arg >= 10 + math.log2(p) - 3
+    return False
+
+def k_high_precision_powering(op, args):
+    """exp / exp_m1 (and powf through exp) at a precision where the final powering exp(r)^(B^n),
+    n = 2^(bit_len(p)/2), amplifies the error of the series sum by B^n while only
+    series_guard_digits + pow_guard_digits (= log_B p + 2 + 2·bit_len(p)·log2 B) extra digits are carried:
+    bases 2 and 3 from p = 2048, bases 10 and 16 from p = 8192, every base from p = 32768."""
+    B, p, mode, fl = _ctx(op, args)
+    name = op.split(".")[-1]
+    if p == 0 or name not in ("exp", "exp_m1", "powf"):
+        return False
+    lb = math.log2(B)
+    pe = p if name != "powf" else p + 10 + int(math.log2(p))
+    L = pe.bit_length()
+    n = 1 << (L // 2)
+    guard = int(math.log2(pe) / lb) + 2 + int(L * lb * 2)
+    return n > guard + 2
+
+def k_operand_longer_than_context(op, args):
+    """a Context method called with an operand that has more digits than the context precision plus the
+    guard digits: the operand itself is rounded to the working precision first (repr_round_ref), which
+    is not a relative perturbation of the result (ln next to 1, exp of a large argument)"""
+    B, p, mode, fl = _ctx(op, args)
+    return op.split(".")[-2] == "c" and p != 0 and any(f[1] is not None and ndigits(B, f[1]) > p for f in fl)
+
+def k_directed(op, args):
+    B, p, mode, fl = _ctx(op, args)
+    return mode in DIRECTED
+
+def k_low_precision(op, args):
+    B, p, mode, fl = _ctx(op, args)
+    return 1 <= p <= 3
+
+def kf(cls, op, args, impl, model):
+    """predicate of the known-finding class `cls` (see known_findings.jsonl, property C11)"""
+    if op.startswith("obs."):
+        op = op[4:]
+    viol = model.startswith("violation ")
+    if cls == "exact-flag":
+        # the value is certified within one ulp; only the flag is wrong
+        return viol and "Exact-flag-on-inexact-result value-within-1ulp" in model and impl.endswith(" Exact")
+    if cls == "domain":
+        return "DomainError(required:" in model
+    req = model.startswith("required a-value-within-1ulp") and "log.rs:250" in impl
+    if not (viol and "result-not-within-1ulp" in model or "result-exactly-1ulp" in model or req):
+        return False
+    if req:
+        # a long operand just above the edge of the domain is rounded onto the edge before the computation
+        return cls == "operand-longer-than-context" and any(
+            a.startswith("d:") for a in args[:args.index("|")] if "|" in args)
+    large = k_large_argument(op, args) or k_high_precision_powering(op, args)
+    longer = k_operand_longer_than_context(op, args)
+    tiny = "error=1ulp+tiny" in model or "result-exactly-1ulp" in model
+    if cls == "large-argument":
+        return k_large_argument(op, args)
+    if cls == "high-precision-powering":
+        return k_high_precision_powering(op, args) and not k_large_argument(op, args)
+    if cls == "operand-longer-than-context":
+        return longer and not large
+    if cls == "directed-one-ulp":
+        # exp_m1 is powered at only p + p/8 + 1 digits, so its sliver is up to B^-(p/8+1) ulp
+        wide = op.endswith(".exp_m1") and "error<2ulp" in model and _ctx(op, args)[1] <= 24
+        return (tiny or wide) and k_directed(op, args) and not large and not longer
+    if cls == "low-precision":
+        return k_low_precision(op, args) and "error<2ulp" in model and not large and not longer
+    return False
+
+def kfc(cls, args, impl, model):
+    """entry point used by known_findings.jsonl; the operation is named in the model's violation text"""
+    import re as _re
+    m = _re.search(r" op=([cf]\.\w+)$", model)
+    return kf(cls, m.group(1) if m else "", args, impl, model)
+
 # ----------------------------------------------------------------------------- texts
 
-THEOREMS = []   # filled below
+THEOREMS = [
+    "Dashu.Props.C11.exp_zero_exact",
+    "Dashu.Props.C11.exp_m1_zero_exact",
+    "Dashu.Props.C11.ln_one_exact",
+    "Dashu.Props.C11.ln_1p_zero_exact",
+    "Dashu.Props.C11.powi_zero_exact",
+    "Dashu.Props.C11.powi_one_round",
+    "Dashu.Props.C11.powf_zero_exact",
+    "Dashu.Props.C11.powf_one_round",
+    "Dashu.Props.C11.exp_unlimited",
+    "Dashu.Props.C11.ln_unlimited",
+    "Dashu.Props.C11.powf_unlimited",
+    "Dashu.Props.C11.powi_neg_unlimited",
+    "Dashu.Props.C11.exp_infinite",
+    "Dashu.Props.C11.ln_infinite",
+    "Dashu.Props.C11.powi_infinite",
+    "Dashu.Props.C11.powf_infinite",
+    "Dashu.Props.C11.powf_negative_base",
+    "Dashu.Props.C11.exp_compute",
+    "Dashu.Props.C11.expEncl_sound",
+    "Dashu.Props.C11.lnEncl_sound",
+    "Dashu.Props.C11.ok_iff_within",
+    "Dashu.Props.C11.checkedExp_sound",
+    "Dashu.Props.C11.checkedExpScaled_sound",
+    "Dashu.Props.C11.checkedExpm1_sound",
+    "Dashu.Props.C11.checkedLn_sound",
+    "Dashu.Props.C11.checkedLn1p_sound",
+    "Dashu.Props.C11.checkedPowf_sound",
+    "Dashu.Props.C11.checkedPowfScaled_sound",
+    "Dashu.Props.C11.checkedPowfExact_sound",
+    "Dashu.Props.C11.ratRoot_spec",
+    "Dashu.Props.C11.checkedPowi_sound",
+    "Dashu.Props.C11.checkedPowiBig_sound",
+    "Dashu.Props.C11.certPowi_decided",
+    "Dashu.Props.C11.exact_flag_counterexample",
+    "Dashu.Props.C11.large_argument_counterexample",
+    "Dashu.Props.C11.directed_one_ulp_counterexample",
+]
 
 REFINED = ["Context::exp_internal entry guards (assert_finite, assert_limited_precision, zero shortcut)",
            "Context::ln_internal entry guards (assert_finite, assert_limited_precision, ln 1 / ln_1p 0 shortcut)",
@@ -508,8 +705,10 @@ EXPLANATION = ("Proved in Lean for all inputs: (1) the entry-guard clauses (exp 
                "powf base are refused by the documented panic) about a model mirroring the guard code; (2) soundness of the "
                "rational enclosures expEncl / lnEncl (Taylor / atanh series with explicit remainder, argument reduction, outward "
                "rounding) for every rational argument and every effort; (3) the certificate theorems: whenever the executable "
-               "test accepts a result r it holds that |r - f(x)| < 1 ulp and (Exact -> r = f(x)), and whenever it reports a "
-               "violation the negation holds. NOT proved: that dashu's results always pass the certificate (its guard-digit "
+               "test accepts a result r it holds that (|r - f(x)| < 1 ulp or r = f(x)) and (Exact -> r = f(x)), and whenever it "
+               "reports a violation the negation holds (also for the scaled comparison used for astronomically large or small "
+               "results, for exact rational powers, and for multi-word integer exponents); three results printed by the "
+               "pinned commit are refuted as theorems (`*_counterexample`). NOT proved: that dashu's results always pass the certificate (its guard-digit "
                "counts are heuristic); this residual is explored: every generated input is run on the real code and its "
                "result certified; a failed certificate is a violation with that input, an exhausted effort budget is "
                "counted as undecided.")
